@@ -108,8 +108,13 @@ def writes_self(fn) -> bool:
     return False
 
 
-def copy_protocol_hooks(deco, added):
-    """copy-protocol special methods the decorator puts on the class: (a) a function of that name in a list / tuple of methods
+# special methods that change what attribute assignment / deletion / lookup on an instance of the class does
+ATTR_HOOKS = ['__setattr__', '__delattr__', '__getattribute__', '__getattr__', '__set_name__', '__set__', '__delete__', '__get__',
+              '__dir__', '__init_subclass__']
+
+
+def copy_protocol_hooks(deco, added, COPY_HOOKS=COPY_HOOKS):
+    """special methods (of the given family) the decorator puts on the class: (a) a function of that name in a list / tuple of methods
     (`methods_to_add = [...]`) or among the methods recognised as attached, (b) `setattr(new_class | cls_, '<name>', …)`,
     (c) `new_class.<name> = …` / `cls_.<name> = …` — anywhere inside `decorator`"""
     found = set(n for n in added if n in COPY_HOOKS)
@@ -125,6 +130,85 @@ def copy_protocol_hooks(deco, added):
                 and n.value.id in ('new_class', 'cls_') and n.attr in COPY_HOOKS:
             found.add(n.attr)
     return [h for h in COPY_HOOKS if h in found]
+
+
+IMMUTABLE_CALLS = {'tuple', 'frozenset', 'int', 'str', 'float', 'bool', 'bytes', 'object'}
+
+
+def is_mutable_expr(e) -> bool:
+    """may the value of this expression carry state that can be changed later (a list / dict / set display or comprehension, or the
+    result of a call other than to a constructor of immutables)?"""
+    if isinstance(e, (ast.List, ast.Dict, ast.Set, ast.ListComp, ast.DictComp, ast.SetComp, ast.GeneratorExp)):
+        return True
+    if isinstance(e, ast.Call):
+        return not (isinstance(e.func, ast.Name) and e.func.id in IMMUTABLE_CALLS)
+    if isinstance(e, ast.Tuple):
+        return any(is_mutable_expr(x) for x in e.elts)
+    if isinstance(e, (ast.IfExp, ast.BoolOp, ast.BinOp)):
+        return any(is_mutable_expr(x) for x in ast.iter_child_nodes(e) if isinstance(x, ast.expr))
+    return False
+
+
+def bound_names(fn):
+    """parameters and names assigned inside a function (its own locals)"""
+    a = fn.args
+    out = {x.arg for x in a.posonlyargs + a.args + a.kwonlyargs}
+    for x in (a.vararg, a.kwarg):
+        if x is not None:
+            out.add(x.arg)
+    for n in ast.walk(fn):
+        if isinstance(n, ast.Name) and isinstance(n.ctx, (ast.Store, ast.Del)):
+            out.add(n.id)
+    return out
+
+
+def copy_helpers_state(tree, outer, deco, roots):
+    """the functions reachable from the copy methods by calls to a plain name (module-level functions, functions defined in
+    `frozen_dataclass` / `decorator`), and whether one of them keeps state between calls: a default argument with a mutable value,
+    a `global` / `nonlocal` statement, a read of a module-level / closure-level name that is bound to a mutable value, or a store
+    into an attribute / item of something that is not a local of the function"""
+    scopes = [tree.body, outer.body, deco.body]
+    defs, shared = {}, set()
+    for body in scopes:
+        for st in body:
+            if isinstance(st, (ast.FunctionDef, ast.AsyncFunctionDef)):
+                defs.setdefault(st.name, st)
+            targets, value = [], None
+            if isinstance(st, ast.Assign):
+                targets, value = st.targets, st.value
+            elif isinstance(st, ast.AnnAssign) and st.value is not None:
+                targets, value = [st.target], st.value
+            for t in targets:
+                if isinstance(t, ast.Name) and is_mutable_expr(value) and t.id not in ('new_class', 'T'):
+                    shared.add(t.id)
+    reach, todo = [], list(roots)
+    while todo:
+        fn = todo.pop(0)
+        if fn in reach:
+            continue
+        reach.append(fn)
+        for n in ast.walk(fn):
+            if isinstance(n, ast.Call) and isinstance(n.func, ast.Name) and n.func.id in defs and defs[n.func.id] not in reach:
+                todo.append(defs[n.func.id])
+    why = []
+    for fn in reach:
+        a = fn.args
+        for d in list(a.defaults) + [d for d in a.kw_defaults if d is not None]:
+            if is_mutable_expr(d):
+                why.append(f'{fn.name}: mutable default argument {ast.unparse(d)}')
+        local = bound_names(fn)
+        for n in ast.walk(fn):
+            if isinstance(n, (ast.Global, ast.Nonlocal)):
+                why.append(f'{fn.name}: {type(n).__name__.lower()} {", ".join(n.names)}')
+            if isinstance(n, ast.Name) and isinstance(n.ctx, ast.Load) and n.id in shared and n.id not in local:
+                why.append(f'{fn.name}: reads the shared mutable `{n.id}`')
+            if isinstance(n, (ast.Attribute, ast.Subscript)) and isinstance(n.ctx, (ast.Store, ast.Del)):
+                base = n.value
+                while isinstance(base, (ast.Attribute, ast.Subscript)):
+                    base = base.value
+                if not (isinstance(base, ast.Name) and base.id in local):
+                    why.append(f'{fn.name}: stores into `{ast.unparse(n)}`')
+    return [f.name for f in reach if f not in roots], why
 
 
 def copy_body(fn) -> str:
@@ -233,7 +317,12 @@ def gen_frozen(repo):
     fns = {n.name: n for n in deco.body if isinstance(n, ast.FunctionDef)}
     if 'copy_with' not in fns or 'deep_copy_with' not in fns:
         raise Skip('copy_with / deep_copy_with not defined in decorator')
-    cw, dcw = copy_body(fns['copy_with']), copy_body(fns['deep_copy_with'])
+    helpers, stateful = copy_helpers_state(tree, outer, deco, [fns['copy_with'], fns['deep_copy_with']])
+    try:
+        cw, dcw = copy_body(fns['copy_with']), copy_body(fns['deep_copy_with'])
+    except Skip as e:
+        raise Skip(str(e) + (f'; reachable helpers {helpers}' if helpers else '')
+                   + (f'; state kept between calls: {"; ".join(stateful)}' if stateful else ''))
     wr = writes_self(fns['copy_with']) or writes_self(fns['deep_copy_with'])
     # methods_to_add = [...]; for method in methods_to_add: setattr(new_class, method.__name__, method)
     added = []
@@ -251,6 +340,7 @@ def gen_frozen(repo):
                 and s.value.args[1].value == s.value.args[2].id:
             added.append(s.value.args[2].id)
     hooks = copy_protocol_hooks(deco, added)
+    attr_hooks = copy_protocol_hooks(deco, added, ATTR_HOOKS)
     # new_post_init: old_post_init(self) before / after self.validate_types(...)
     npi = [n for n in ast.walk(deco) if isinstance(n, ast.FunctionDef) and n.name == 'new_post_init']
     calls_old, old_first = False, False
@@ -306,11 +396,21 @@ def methodsAdded : List String := [{', '.join('"' + m + '"' for m in added)}]
     `__getnewargs__`, `__getnewargs_ex__`, `__replace__`) the decorator installs on the class: with none of them `copy.deepcopy`
     rebuilds an instance of a frozen dataclass from deep copies of its fields (`object.__reduce_ex__` / `copy._reconstruct`) -/
 def copyProtocolHooks : List String := [{', '.join('"' + m + '"' for m in hooks)}]
+/-- attribute-protocol special methods (`__setattr__`, `__delattr__`, `__getattribute__`, `__getattr__`, `__set_name__`, `__set__`,
+    `__delete__`, `__get__`, `__dir__`, `__init_subclass__`) the decorator installs on the class: with none of them assignment and
+    deletion on an instance are decided by the `__setattr__` / `__delattr__` that `dataclass(frozen=True)` generated -/
+def attrProtocolHooks : List String := [{', '.join('"' + m + '"' for m in attr_hooks)}]
 
 def copyWithBody : CopyBody := {cw}
 def deepCopyWithBody : CopyBody := {dcw}
 /-- a copy method writes to `self` (attribute store, setattr/delattr, `__dict__`) -/
 def copyBodiesWriteSelf : Bool := {lean_bool(wr)}
+/-- functions of this module that the copy methods reach by calls to a plain name (besides themselves) -/
+def copyHelpers : List String := [{', '.join('"' + m + '"' for m in helpers)}]
+/-- no function reachable from `copy_with` / `deep_copy_with` keeps state between calls: no default argument with a mutable value,
+    no `global` / `nonlocal`, no read of a module-level / closure-level name bound to a mutable value, no store into an attribute or
+    item of anything but its own locals — so what a copy method returns depends on the receiver, the keyword arguments and nothing else -/
+def copyHelpersStateless : Bool := {lean_bool(not stateful)}
 
 /-- `new_post_init` calls the previous `__post_init__`, and does so before `validate_types` -/
 def postInitCallsOld : Bool := {lean_bool(calls_old)}
